@@ -216,6 +216,16 @@ func SpellNumber(r *fw.Rand, f float64) string {
 			}
 		}
 	}
+	// long mantissas (more than 20 digits, zero-padded or exact) with an exponent part, in both letter cases of the exponent sign
+	if a != 0 {
+		for _, prec := range []int{21, 25, 30} {
+			cands = append(cands, strconv.FormatFloat(f, 'E', prec, 64))
+		}
+		if f == math.Trunc(f) && a < 1e15 {
+			i := strconv.FormatInt(int64(f), 10)
+			cands = append(cands, i+".000000000000000000000E0", i+"000000000000000000000000E-24", i+".0000000000000000000000e+0")
+		}
+	}
 	if f == 0 {
 		cands = append(cands, "0", "0.0", "0e5", "-0", "-0.0")
 		if math.Signbit(f) {
@@ -336,6 +346,10 @@ func RandObject(r *fw.Rand, depth int) map[string]interface{} {
 		name := prefix + RandString(r, 3)
 		if r.Chance(1, 10) {
 			name = ""
+		}
+		if r.Chance(1, 12) {
+			// names that mean something to other languages' object models: ordinary member names in JSON
+			name = fw.Pick(r, []string{"__proto__", "constructor", "prototype", "toString", "hasOwnProperty", "__defineGetter__", "length", "undefined", "null", "NaN", "$ref", "@type", "0", "-1", "007"})
 		}
 		m[name] = RandValue(r, depth-1)
 	}
